@@ -102,7 +102,7 @@ def static_events(seed):
 def run(ctx, cases=None):
     res = Result()
     texts = parsefam.CURATED[:60] + rewrite.FORMS[:60] + rewrite.EQ_FORMS[:20] + rewrite.test_json_inputs()
-    from multiprocessing import Pool
+    from ..common import Pool
     with Pool(16) as pool:
         events = [e for l in pool.map(tree_events, texts, chunksize=10) for e in l]
     events += static_events(ctx.seed)
